@@ -45,6 +45,10 @@ func isAllowedPossibleValue(opt *Option, value interface{}) error {
 	if opt.PossibleValues == nil {
 		return nil
 	}
+	if value == nil {
+		// eg. a null in a configuration file
+		return errors.New("value is not allowed")
+	}
 
 	for _, val := range opt.PossibleValues {
 		compareAgainst := val.Value
